@@ -23,7 +23,7 @@ EXPLANATION = (
     "are rows returned by the candidate filter (search bounds, user's constraint bound) with nothing in between. R4 one evaluation: the search "
     "step contains exactly one logger call site, outside any loop, and none of its other callees can reach the target. R5 hedge distribution: the "
     "probabilities are a*p + b with p = e/sum(e) (same e), a + n*b = 1 and b = gamma as term identities, a >= 0 for the shipped gamma and "
-    "portfolio size; the strategy is chosen by inverse CDF on cumsum(prob). The rank-selection mask combinatorics for all (mu, lambda) would need "
+    "portfolio size; the strategy is chosen by inverse CDF on cumsum(prob). R6 search-mesh slots are coherent with the search exponent where read (rules/meshflow.py). R7 every definition of the hedge reward that uses a GP-predicted quantity (def-use closure from .predict) sits under np.isfinite(q) or q == const; the zero-SD branch is tabled. The rank-selection mask combinatorics for all (mu, lambda) would need "
     "execution and are not decided."
 )
 
